@@ -321,6 +321,7 @@ def c10(tier):
     sg.run_sign(P, C)
     # the constrained solver gets the system exactly as assembled (it manages the symmetric/full views of the matrix itself)
     gw.gw5(P, C)
+    sp.so1(P, C)
     # "for any data": the solver's factor bookkeeping must not read moved or released CHOLMOD arrays on any path
     sp.sp1(P, C, floor=3)
     sp.sp2(P, C)
@@ -340,6 +341,7 @@ def c11(tier):
     sg.run_sign(P, C)
     # the anchor `if (nH2 == 0) break`: convergence is declared only at an exact solve with nothing pending
     sg.sg5(P, C)
+    sp.so1(P, C)
     # the constrained set handed back to the solver is one job's list of clipped coordinates, not several jobs' concatenated
     mt.mt9(P, C)
     # anchored in modify_factor / recompute_factor: the factor-update path must not read moved or released CHOLMOD arrays
@@ -388,6 +390,7 @@ def c19(tier):
     sm.sm2(P, C)
     sm.sm3(P, C)
     sm.sm4(P, C)
+    sm.sm6(P, C)
     # the model reads the per-dimension orders through readOrder: ORDERn must land in order[n] there as in the reader
     fs.fs8(P, C)
     n = sm.ts3a(P, C)
@@ -411,6 +414,8 @@ def c06(tier):
     fs.fs6(P, C)
     fs.fs7(P, C)
     fs.fs8(P, C)
+    # legacy files (no EXTENTS / PERIOD): a failed HDU move must keep its status until tested
+    sm.sm6(P, C)
     # auxiliary values survive the round trip only if write_key refuses what a card cannot hold
     ax.ks1(P, C)
     ax.uw3(P, C)
